@@ -53,6 +53,13 @@ Definition has_byte (n : N) (s : bytes) : bool := existsb (fun c => bn c =? n) s
 Definition no_meta (s : bytes) : bool :=       (* no glob metacharacter other than '*' *)
   negb (has_byte 63 s) && negb (has_byte 91 s) && negb (has_byte 92 s).
 Definition no_star (s : bytes) : bool := negb (has_byte 42 s).
+(* an omit pattern may also escape an asterisk: every backslash is followed by one *)
+Fixpoint esc_ok (s : bytes) : bool :=
+  match s with
+  | [] => true
+  | c :: r => if bn c =? 92 then match r with d :: r' => (bn d =? 42) && esc_ok r' | [] => false end
+              else negb (bn c =? 63) && negb (bn c =? 91) && esc_ok r
+  end.
 
 Definition wf_tree (t : tree) : bool :=
   match assoc root_path t with Some NDir => true | _ => false end
@@ -113,7 +120,8 @@ Definition wf_line (t : tree) (l : bytes) : bool :=
       | OOod => false
       | OErr => true
       | o => let n := op_name o in
-             feq (clean n) n && no_link_above t n && (negb (op_wild o) || no_meta n)
+             feq (clean n) n && no_link_above t n
+             && (negb (op_wild o) || no_meta n || match o with OOmit _ _ => esc_ok n | _ => false end)
              && (op_wild o || abs_cleanb n)
       end).
 
@@ -137,7 +145,7 @@ Definition targets (t : tree) (li : lineinfo) : list bytes :=
   if li_wild li then targets_wild t li else [li_name li].
 (* a pattern selects directory entries; the root of the archive ("./") is not one *)
 Definition omit_matches (nm : bytes) (w : bool) (k : bytes) : bool :=
-  if w then (if feq k root_path then false else pmatch nm k) else feq nm k.
+  if w then (if feq k root_path then false else pmatch_esc nm k) else feq nm k.
 Definition omits (ops : list op) (k : bytes) : bool :=
   existsb (fun o => match o with OOmit nm w => omit_matches nm w k | _ => false end) ops.
 Definition adds (t : tree) (ops : list op) (k : bytes) : bool :=
